@@ -10,6 +10,7 @@ from harness import graphgen as gg
 from harness.c01 import compare_graph
 from harness.common import DTYPE_COQ, Failure, HarnessError, cbool, clist, cnat, copt, cstr, cz, dtype_name, exn_name
 from harness.storelib import Interner, c_arr, c_otree, c_tree, dump_tree, enc_arr, tree_printable
+from harness import keystore as kst
 
 PROP = "C02"
 PARALLEL = True
@@ -56,6 +57,24 @@ def generate(rng: random.Random, tier: str):
              "emptyprops": rng.random() < 0.5, "minimal_md": rng.random() < 0.5, "shuffle": rng.randint(0, 1000),
              "bigendian": rng.random() < 0.2, "dlayout": rng.choice([0, 1, 2, 2])}
         yield {"kind": "converse", "variant": v, **g}
+    # key-level negative controls: the fixed graph laid out by the independent writer with ONE wrong key / dtype; the Coq check
+    # demands that the key-level reading of the specification rejects each (Corr/C02.v IKeysNeg)
+    g = fixed_graph()
+    for fmt in (2, 3):
+        for wrong in WRONG_KEYS:
+            v = {"fmt": fmt, "chunk": None, "compress": True, "allfalse": False, "emptyprops": False, "minimal_md": False, "shuffle": 0,
+                 "bigendian": False, "dlayout": 0, "wrong": wrong}
+            yield {"kind": "keysneg", "variant": v, **g}
+
+
+# ---- key-level negative controls: which member / attribute / dtype the independent writer gets wrong ----
+WRONG_KEYS = ["nodes", "edges", "ids", "props", "values", "missing", "data", "geffattr", "idsdtype"]
+WRONG_NAME = {"nodes": "node", "edges": "edge", "ids": "id", "props": "properties", "values": "vals", "missing": "mask", "data": "payload"}
+
+
+def _nm(v, name):
+    """the member name the independent writer uses for the specification's `name` (the specification's, unless v['wrong'] says otherwise)"""
+    return WRONG_NAME[name] if v.get("wrong") == name else name
 
 
 # ---- independent writer (zarr API + numpy only) ----
@@ -117,11 +136,11 @@ def independent_store(c):
         md["axes"] = None
     tasks = []
     for grp, ids, ps in (("nodes", nids, c["nprops"]), ("edges", eids, c["eprops"])):
-        g = root.create_group(grp)
-        tasks.append((g, "ids", ids))
+        g = root.create_group(_nm(v, grp))
+        tasks.append((g, _nm(v, "ids"), ids.astype("int64") if v.get("wrong") == "idsdtype" else ids))
         items = list((ps or {}).items())
         if items or v["emptyprops"]:
-            pg = g.create_group("props")
+            pg = g.create_group(_nm(v, "props"))
             rng.shuffle(items)
             for name, p in items:
                 pnp = gg.prop_to_np(p)
@@ -131,19 +150,19 @@ def independent_store(c):
                     if len(vals) == 0:
                         continue
                     table, data = my_serialize(list(vals), v.get("dlayout", 0), v["shuffle"])
-                    tasks.append((sub, "values", table))
-                    tasks.append((sub, "data", data))
+                    tasks.append((sub, _nm(v, "values"), table))
+                    tasks.append((sub, _nm(v, "data"), data))
                     dt, vl = dtype_name(data.dtype), True
                 else:
                     if vals.dtype.name == "float16":
                         vals = vals.astype("float32")
-                    tasks.append((sub, "values", vals))
+                    tasks.append((sub, _nm(v, "values"), vals))
                     dt, vl = dtype_name(vals.dtype), False
                 miss = pnp["missing"]
                 if miss is not None:
-                    tasks.append((sub, "missing", miss))
+                    tasks.append((sub, _nm(v, "missing"), miss))
                 elif v["allfalse"]:
-                    tasks.append((sub, "missing", np.zeros(len(vals), dtype=bool)))
+                    tasks.append((sub, _nm(v, "missing"), np.zeros(len(vals), dtype=bool)))
                 entry = {"identifier": name, "dtype": dt}
                 if vl or not v["minimal_md"]:
                     entry["varlength"] = vl
@@ -152,7 +171,7 @@ def independent_store(c):
     rng.shuffle(tasks)
     for parent, name, a in tasks:
         put(parent, name, a)
-    root.attrs["geff"] = md
+    root.attrs["geff_metadata" if v.get("wrong") == "geffattr" else "geff"] = md
     if rng.random() < 0.5 or v["shuffle"] == 0:
         root.attrs["ome"] = {"version": "0.5"}
         root.create_group("segmentation")
@@ -209,6 +228,9 @@ def run_impl(c):
         except Exception as e:
             raise HarnessError(f"independent writer failed: {type(e).__name__}: {e}")
     tree = dump_tree(st, it)
+    # the RAW KEYS of the same store (documents parsed, chunks decoded by the harness: harness/keystore.py), for the key-level tie
+    raw = kst.try_raw_dump(st, it, c["fmt"] if c["kind"] == "forward" else c["variant"]["fmt"])
+    obs["keys"] = "undecodable" if raw is None else len(raw["items"])
     try:
         validate_structure(st)
         obs["valid"] = True
@@ -229,8 +251,18 @@ def run_impl(c):
             exp = c_sgraph(np.asarray(nids), np.asarray(eids), intended["nodes"], intended["edges"], it)
             lib = f"(Ok {gg.c_mgraph(back, it)})" if back is not None else f"(Err {obs['read'][1]})"
             obs["coq"] = f"(IStore {c_tree(tree)} (Some {exp}), OStore {cbool(obs['valid'])} {lib})"
+            if raw is not None:
+                kterm, _ = kst.c_kstore(raw)
+                head = "IKeysNeg" if c["kind"] == "keysneg" else "IStoreK"
+                exp_k = exp if c["kind"] == "keysneg" else f"(Some {exp})"
+                obs["coq"] = (f"({head} {c_tree(tree)} {exp_k} {kst.c_fmt(raw['fmt'])} {kterm} {kst.geff_version_term(raw)}, "
+                              f"OStore {cbool(obs['valid'])} {lib})")
+                obs["keys_tied"] = True
+            elif c["kind"] == "keysneg":
+                raise HarnessError("negative control store could not be dumped at the key level")
         except HarnessError:
-            pass
+            if c["kind"] == "keysneg":
+                raise
     return obs
 
 
@@ -247,11 +279,22 @@ def loosen(back, intended):
     return out
 
 
+KEY_STATS = {"stores_tied_at_key_level": 0, "stores_not_decodable_at_key_level": 0, "keys": 0, "negative_controls": 0}
+
+
 def coq_case(c, o):
+    if o.get("keys_tied"):
+        KEY_STATS["stores_tied_at_key_level"] += 1
+        KEY_STATS["keys"] += o["keys"]
+        KEY_STATS["negative_controls"] += c["kind"] == "keysneg"
+    elif o.get("keys") == "undecodable":
+        KEY_STATS["stores_not_decodable_at_key_level"] += 1
     return o.get("coq")
 
 
 def oracle(c, o):
+    if c["kind"] == "keysneg":
+        return None  # not a conformant store: the expectations (raw keys = API view; key-level spec reading rejects) are in Corr/C02.v
     if "write" in o:
         if any("vlen" in p["values"] and not p["values"]["vlen"] for ps in (c["nprops"], c["eprops"]) if ps for p in ps.values()):
             return None
@@ -274,7 +317,13 @@ def nontrivial(c, o):
     return bool(c["nprops"] or c["eprops"])
 
 
+def extra_coverage():
+    return {"key_level": dict(KEY_STATS)}
+
+
 def describe(c, o):
     v = c.get("variant")
+    if c["kind"] == "keysneg":
+        return f"keysneg:v{v['fmt']}:{v['wrong']}"
     tag = "fwd:v%d" % c["fmt"] if v is None else f"conv:v{v['fmt']}:ch={v['chunk']}:z={int(v['compress'])}:af={int(v['allfalse'])}:ep={int(v['emptyprops'])}:min={int(v['minimal_md'])}:be={int(v['bigendian'])}:dl={v.get('dlayout', 0)}"
     return f"{tag}:N={c['nids']['shape'][0]}:{'ok' if o.get('valid') and o.get('read', [''])[0] == 'ok' else 'err'}"
